@@ -624,7 +624,7 @@ func (p *Printer) comments(comments ...Comment) {
 	if p.minify {
 		for _, c := range comments {
 			if fileutil.Shebang([]byte("#"+c.Text)) != "" && c.Hash.Col() == 1 && c.Hash.Line() == 1 {
-				p.w.WriteString(strings.TrimRightFunc("#"+c.Text, unicode.IsSpace))
+				p.writeLit(strings.TrimRightFunc("#"+c.Text, unicode.IsSpace))
 				p.w.WriteString("\n")
 				p.line++
 			}
